@@ -5,6 +5,7 @@ import (
 	"bytes"
 	"context"
 	"fmt"
+	"net/url"
 	"os"
 	"path/filepath"
 	"strings"
@@ -28,7 +29,7 @@ func main() {
 	mon.Main(&mon.Spec{
 		ID: "C07",
 		Rule: "family exh: every string of 1..N tokens over {'/', '.', 'a', '%2e', '%2f', '%', '\\'} (N=8 quick, 10 thorough) is parsed as a request target; URI.Path() and utils.CleanPath are checked for containment and URI.Path() for equality with decode-once + segment-stack resolution; " +
-			"family random: longer targets with mixed-case/double-encoded escapes, ?query and #fragment suffixes, absolute-form; family fs: traversal targets through the real server with StaticFS and a canary file outside the root; " +
+			"family random: longer targets with mixed-case/double-encoded escapes, ?query and #fragment suffixes, absolute-form; family fs: traversal targets through the real server with StaticFS (plain, index pages, slash stripper, virtual-host rewriter with Host headers of the peer's choice incl. '.' and '..', a rewriter naming the file by a query argument, a download handler using ctx.File) and a canary file outside the root; family redirect: the Location of the router's trailing-slash and fixed-path redirects must decode once to the cleaned path that was asked for; " +
 			"distinct = the string itself (enumeration has no repeats; counted per string); non-trivial = contains '.' or an escape",
 		Assumptions: []string{
 			"a trailing '/.' is kept by hertz and allowed by the property ('.' segment allowed as the last one)",
@@ -330,6 +331,12 @@ func fsFamily(w *mon.W) {
 		mk(&app.FS{Root: root, GenerateIndexPages: true, IndexNames: []string{"index.html"}}),
 		mk(&app.FS{Root: root, Compress: true, PathRewrite: app.NewPathSlashesStripper(0)}),
 		mk(&app.FS{Root: vroot, PathRewrite: app.NewVHostPathRewriter(0)}),
+		// a rewriter that names the file by a query argument (the documentation makes the
+		// rewriter responsible for "/../" inside the path; the handler itself promises not
+		// to serve such paths): index 4, addressed with ?file=… below
+		mk(&app.FS{Root: root, IndexNames: []string{"c.txt"}, GenerateIndexPages: true, PathRewrite: func(ctx *app.RequestContext) []byte {
+			return append([]byte("/"), ctx.QueryArgs().Peek("file")...)
+		}}),
 		// a download handler of the usual kind: one path parameter (which cannot contain a
 		// slash), appended to a directory, handed to ctx.File
 		rig.NewEngine(opt, func(e *route.Engine) {
@@ -346,7 +353,8 @@ func fsFamily(w *mon.W) {
 	ft := []string{"/", "..", ".", "%2e%2e", "%2e", "%2f", "%2F", "secret", "c.txt", "a", "root", "%5c", "\\", "..%2f", "%2e%2e%2f", "....//", "%252e%252e", "a/f.txt", "%00", ";"}
 	w.Cases("fs", uint64(w.Pick(600, 6000)), func(c *mon.Case) {
 		r := c.R
-		e := engines[r.Intn(len(engines))]
+		ei := r.Intn(len(engines))
+		e := engines[ei]
 		var stream []byte
 		var targets []string
 		for k := 0; k < 8; k++ {
@@ -364,7 +372,18 @@ func fsFamily(w *mon.W) {
 				t = "/" + strings.Repeat(r.Str("%252e%252e%252f", "%252E%252E%252F", "..%252f", "%252e%252e/"), 1+r.Intn(3)) + r.Str("c.txt", "secret%252fc.txt", "a/f.txt")
 			}
 			targets = append(targets, t)
-			stream = append(stream, fmt.Sprintf("GET %s HTTP/1.1\r\nHost: h\r\n\r\n", t)...)
+			if ei == 4 {
+				// the query-argument rewriter: the file is named by ?file=
+				t = "/download?file=" + r.Str("..", "../", "a/..", "a/../..", "../c.txt", "a/../../", "a/f.txt", "./..", "a/b/../../..")
+			}
+			// the Host header is the peer's choice too (the virtual-host rewriter makes it
+			// the first path segment)
+			host := r.Str("h", "h", "h", "..", ".", "x@..", "h:80", "%2e%2e")
+			if r.Chance(8) {
+				t = "/c.txt"
+			}
+			targets[len(targets)-1] = t + " (Host: " + host + ")"
+			stream = append(stream, fmt.Sprintf("GET %s HTTP/1.1\r\nHost: %s\r\n\r\n", t, host)...)
 		}
 		c.Detail = func() interface{} { return map[string]interface{}{"targets": targets} }
 		sc := sconn.New([][]byte{stream}, sconn.EOF)
@@ -391,5 +410,56 @@ func fsFamily(w *mon.W) {
 		if w.WantSample() {
 			w.Sample(map[string]interface{}{"family": "fs", "targets": targets})
 		}
+	})
+	// redirect: the router's own redirects (trailing slash, fixed path) send the client to
+	// the path it asked for, cleaned: decoding the Location once gives that path — not a
+	// path decoded twice, cut at a decoded '?' or with decoded dot segments resolved
+	red := rig.NewEngine(rig.Options(func(o *config.Options) { o.RedirectFixedPath = true }), func(e *route.Engine) {
+		h := func(c context.Context, ctx *app.RequestContext) { ctx.SetBodyString("ok") }
+		e.GET("/files/:name", h)
+		e.GET("/dir/:name/", h)
+		e.GET("/", h)
+	})
+	segs := []string{"a", "100%2525", "%252e%252e", "%252E%252e", "a%3Fb", "a%23b", "x%2520y", "%2541", "b;c", "a+b", "%25", "a%2Fb"}
+	w.Cases("redirect", uint64(w.Pick(300, 3000)), func(c *mon.Case) {
+		r := c.R
+		seg := segs[r.Intn(len(segs))]
+		t := r.Str("/files/"+seg+"/", "/dir/"+seg, "/FILES/"+seg, "/Dir/"+seg+"/", "/files//"+seg)
+		c.Detail = func() interface{} { return map[string]interface{}{"family": "redirect", "target": t} }
+		sc := sconn.New([][]byte{[]byte("GET " + t + " HTTP/1.1\r\nHost: h\r\n\r\n")}, sconn.EOF)
+		res := rig.Serve(red, sc, 4096, false, 20*time.Second)
+		if res.Hang || res.Panic != nil {
+			c.Violate("redirect-panic", "the server hangs or panics on %q: %v", t, res.Panic)
+			return
+		}
+		msgs, err := wire.ParseResponses(res.Out, nil, true)
+		if err != nil || len(msgs) != 1 {
+			c.Violate("redirect-response", "target %q: %d responses, %v", t, len(msgs), err)
+			return
+		}
+		w.Count("redirect_probes", 1)
+		m := msgs[0]
+		if m.Status != 301 && m.Status != 308 {
+			w.Count(fmt.Sprintf("redirect_probe_status_%d", m.Status), 1)
+			return
+		}
+		loc, _ := m.Get("Location")
+		dt, derr := url.PathUnescape(t)
+		if derr != nil {
+			return
+		}
+		if strings.ContainsAny(loc, "?#") {
+			c.Violate("redirect-location", "GET %q (decoded path %q) is redirected to %q: a decoded '?' or '#' of the path has become a delimiter", t, dt, loc)
+			return
+		}
+		dl, lerr := url.PathUnescape(loc)
+		want := utils.CleanPath(dt)
+		ok := lerr == nil && (strings.EqualFold(dl, want) || strings.EqualFold(dl, strings.TrimSuffix(want, "/")) || strings.EqualFold(dl, want+"/"))
+		if !ok {
+			c.Violate("redirect-location", "GET %q (decoded path %q) is redirected to %q, which decodes to %q: not the cleaned path that was asked for (%q, give or take the trailing slash and letter case)", t, dt, loc, dl, want)
+			return
+		}
+		w.Count("redirect_locations_checked", 1)
+		w.Shape(mon.Hash64("redirect", t))
 	})
 }
